@@ -15,7 +15,7 @@ for d in sorted(glob.glob(os.path.join(src, "C*", "*"))):
     out = os.path.join(dst, pid, x)
     os.makedirs(out, exist_ok=True)
     shutil.copy(os.path.join(d, "patch.diff"), out)
-    demo = open(os.path.join(d, "demo.py")).read().replace(f"/tmp/wt/{pid}", "/repo")
+    demo = open(os.path.join(d, "demo.py")).read().replace(f"/tmp/wt5/{pid}", "/repo").replace(f"/tmp/wt/{pid}", "/repo")
     open(os.path.join(out, "demo.py"), "w").write(demo)
     meta = {}
     try:
